@@ -712,7 +712,7 @@ func famValidate(e *env, r *hx.Rng, o *hx.Out) {
 		"tl-two-thirds", "chain-blank", "chain-empty", "chain-long", "chain-50", "trusting-zero", "trusting-neg", "unbonding-zero", "drift-zero",
 		"revision-mismatch", "height-zero", "trusting-eq-unbonding", "trusting-gt-unbonding", "specs-nil", "upath-blank", "upath-empty", "no-revision",
 		"huge-revision"}
-	for rep := 0; rep < hx.N(2, 40); rep++ {
+	for rep := 0; rep < hx.N(2, 10); rep++ {
 		for _, v := range variants {
 			cs := mk()
 			switch v {
@@ -794,12 +794,12 @@ func famLight(t *testing.T, r *hx.Rng, o *hx.Out) {
 	w := e.newWorld(ibctesting.NewTendermintConfig(), ibctesting.NewTendermintConfig(), false)
 	l := &lightEnv{e: e, cid: w.cid1, keys: newKeyring(r, 9)}
 	famValidate(e, r, o)
-	for rep := 0; rep < hx.N(8, 200); rep++ {
+	for rep := 0; rep < hx.N(8, 40); rep++ {
 		for _, m := range headerMutations {
 			l.genHeader(r, o, m)
 		}
 	}
-	for rep := 0; rep < hx.N(6, 150); rep++ {
+	for rep := 0; rep < hx.N(6, 30); rep++ {
 		for _, m := range misbMutations {
 			l.genMisb(r, o, m)
 		}
